@@ -6,6 +6,15 @@ TECH = "bounded symbolic execution of the real pedal code with CrossHair 0.0.110
 TECH2 = TECH + "; plus direct z3 queries over terms translated from the functions' AST at run time"
 CLAIMS = {
  # id: (technique, level text, level note, design ref)
+ "C01": (TECH2,
+         "Rank function: for ALL ASCII category/priority strings (any case) the AST-translated by_priority equals the documented rank key (z3 unsat per table cell). Selection/eligibility/ties: within N<=2 (quick) / N<=3 (thorough) feedbacks, category/priority/kind/flag menus, one or two suppress() calls of every form with symbolic field values, CrossHair confirms over all paths that resolve() shows exactly min((rank, creation index)) over eligible feedback, the default result when none, and never raises.",
+         "documented rank list transcribed into the checker; CrossHair/z3 models; N>3 and non-ASCII strings outside the bound", "DESIGN.md §3 C01"),
+ "C02": (TECH,
+         "For every ordered pair (quick) / triple (thorough) of feedback calls from an 8-entry constructor menu (core commands and generic Feedback), with symbolic activate/muted flags, unbounded symbolic message strings and symbolic suppress switches, CrossHair confirms over all paths that correct == success == to_json()['correct'] == conjunction of `correct` over eligible feedback.",
+         "constructor menu is finite; CrossHair/z3 models; harness oracle", "DESIGN.md §3 C02"),
+ "C03": (TECH2,
+         "Operator kernel add_to_current decided for all real current/value by z3 on the AST translation; the valence x trigger x muted/unscored/suppressed table decided by CrossHair over all paths for N<=2 (quick) / N<=3 (thorough) feedbacks with score literals from a menu covering each documented form; oracle is the exact rational sum.",
+         "score literals from a finite menu (formatting realises symbolic floats); reals instead of floats in E2", "DESIGN.md §3 C03"),
  "C15": (TECH,
          "Within the stated bounds (texts <= 3 chars over all unicode for the single recording step from an arbitrary accumulated state; 2-3 operation histories of run/call/evaluate/clear_output with texts <= 1 char; input queues <= 3 items) the solver shows the output/input bookkeeping oracle holds on every path; outside the bounds nothing is claimed. The inductive single-step obligation makes the raw/line-view part independent of history length.",
          "exec of student code is a stub writing a symbolic string; CrossHair's str/list models, z3, CPython; harness oracles", "DESIGN.md §3 C15"),
